@@ -252,6 +252,9 @@ func boundarySet() []ymd {
 			s = append(s, ymd{y, m, 1}, ymd{y, m, 2}, ymd{y, m, oracle.DaysIn(y, m) - 1}, ymd{y, m, oracle.DaysIn(y, m)})
 		}
 	}
+	for _, y := range []int64{-1500000000, 1500000000, -2147483646, 2147483646, 999999999, -999999999, 10000} {
+		s = append(s, ymd{y, 1, 1}, ymd{y, 3, 4}, ymd{y, 12, 31})
+	}
 	for _, y := range []int64{2023, 2024} {
 		for m := 1; m <= 12; m++ {
 			for d := 1; d <= oracle.DaysIn(y, m); d++ {
